@@ -1,5 +1,62 @@
+import OpusModel.Pcm
 import Driver.Util
-/- Suite stub — replaced by the owner of this suite. -/
+/- Suite `pcm`: the sample-format conversion macros of the float build (C13).  Floats are bit patterns (decimal).
+
+   in16 <x>        → `<class> res=<INT16TORES bits> sig=<INT16TOSIG bits>`
+   in24 <a>        → `<class> res=<INT24TORES bits> sig=<INT24TOSIG bits>`
+   inf <bits>      → `<class> res=<FLOAT2RES bits> sig=<FLOAT2SIG bits>`
+   out <bits>      → `<class> i16=<RES2INT16> i24=<RES2INT24> f=<RES2FLOAT bits>`
+   f2i16 <hex>     celt_float2int16 on an array of little-endian floats → int16 values `a,b,c`          -/
 namespace Driver.SuitePcm
-def handle (_ : List String) : String := "bad-op"
+open Opus Opus.Pcm Driver
+
+def signCls (k : Int) : String := if k < 0 then "neg" else if k = 0 then "zero" else "pos"
+
+def outCls (b : Nat) (i16 i24 : Int) : String :=
+  if isNaN b then "nan"
+  else if (mag b).isNone then "inf"
+  else if i24 = -(2 ^ 31) then "indefinite24"
+  else if i16 = -32768 ∨ i16 = 32767 then "sat16"
+  else if i16 = 0 then "tiny" else "mid"
+
+def bytesToBits : Bytes → Option (List Nat)
+  | [] => some []
+  | a :: b :: c :: d :: rest => (bytesToBits rest).map ((a + 256 * b + 65536 * c + 16777216 * d) :: ·)
+  | _ => none
+
+def handle : List String → String
+  | ["in16", x] =>
+    match parseInt x with
+    | some x => s!"{signCls x} res={int16ToRes x} sig={int16ToSig x}"
+    | none => "bad-op"
+  | ["in24", a] =>
+    match parseInt a with
+    | some a => s!"{signCls a} res={int24ToRes a} sig={int24ToSig a}"
+    | none => "bad-op"
+  | ["inf", b] =>
+    match parseNat b with
+    | some b =>
+      if b < 2 ^ 32 then
+        let cls := if isNaN b then "nan" else if (mag b).isNone then "inf" else "finite"
+        s!"{cls} res={float2Res b} sig={float2Sig b}"
+      else "bad-op"
+    | none => "bad-op"
+  | ["out", b] =>
+    match parseNat b with
+    | some b =>
+      if b < 2 ^ 32 then
+        let i16 := float2Int16 b
+        let i24 := res2Int24 b
+        s!"{outCls b i16 i24} i16={i16} i24={i24} f={res2Float b}"
+      else "bad-op"
+    | none => "bad-op"
+  | ["f2i16", hex] =>
+    match parseHex hex with
+    | some bs =>
+      match bytesToBits bs with
+      | some xs => s!"n={xs.length} {intList (celtFloat2Int16 xs)}"
+      | none => "bad-op"
+    | none => "bad-op"
+  | _ => "bad-op"
+
 end Driver.SuitePcm
